@@ -810,6 +810,7 @@ class ChunkParser:
                 and self.working_twprge != MasterConfig._ERR_TWPRGE:
             self.working_twprge_list.insert(0, self.working_twprge)
         if not self.last_sec_used \
+                and self.working_sec is not None \
                 and self.working_sec != [MasterConfig._ERR_SEC]:
             self.working_sec_list.insert(0, self.working_sec)
 
